@@ -623,13 +623,28 @@ def execute(n_ep, opens, ops, rig):
                 if spin_k < 0:
                     raise HarnessError("spin(k<0) never returns; not generated")
                 feed = op[2]
+                waiting = []
                 for it in range(spin_k):
                     row = feed[it] if it < len(feed) else ()
                     for j, n in enumerate(names):
                         msg_count += 1
-                        rig.feed(n, _payload(row[j] if j < len(row) else "none", msg_count))
+                        pl = _payload(row[j] if j < len(row) else "none", msg_count)
+                        rig.feed(n, pl)
+                        if pl is not None:
+                            waiting.append((n, pl))
                         fed_any = True
                 sut(hub.spin, spin_k)
+                if rig.synchronous:
+                    # spin "executes all forwarding rules, input and output functions" (its documentation): one
+                    # message per iteration waiting on an OPEN endpoint that currently has a destination or a sink is
+                    # received during the spin (and then falls under the delivery clause) - the spin analogue of the
+                    # demand made of getData above.  Endpoints without rules need not be polled.
+                    seen = set((e[1], e[2]) for e in log if e[0] == "rx")
+                    for n, pl in waiting:
+                        if model.open[n] and model.has_rule(n) and (n, pl) not in seen:
+                            raise Violation("op %d %r: message %r was waiting on the open endpoint %r, which has a "
+                                            "destination or sink, but spin(%d) never received it; rules %s" % (
+                                                idx, op, pl, n, spin_k, model.describe()))
             elif kind == "send":
                 a = op[1]
                 msg_count += 1
